@@ -228,3 +228,50 @@ Definition check_clientver (inp obs : V) : verdict :=
          v_branch := match m with VL (o :: _) => o | _ => VL [] end |}
   | None => bad_case
   end.
+
+(* both sides in one loop (family "negotiate2"): input (client_cfg serve_cfg);
+   obs (ok negotiated client_set announced server_set killed) *)
+Definition both_sides (cc : client_cfg) (sc : serve_cfg) : V :=
+  let env := env_of_keys (mkeys (client_map cc)) in
+  let '(v, p, set) := server_pick sc env in
+  let ssid := match set with Some x => ps_id x | None => (-1)%Z end in
+  match client_accept cc (itoa v) with
+  | Some (v', pc) => VL [VI 1%Z; VI v'; VI (ps_id pc); VI v; VI ssid; VI 0%Z]
+  | None => VL [VI 0%Z; VI 0%Z; VI (-1)%Z; VI v; VI ssid; VI 1%Z]
+  end.
+
+(* oracle straight from the property text: common version exists <-> ok; then the negotiated version is the
+   greatest common one and both sides hold the sets registered under it; otherwise the plugin was terminated
+   and (when it serves anything) was offered... the lowest served version *)
+Definition oracle_both (cc : client_cfg) (sc : serve_cfg) (obs : V) : bool :=
+  let C := mkeys (client_map cc) in
+  let S := mkeys (server_map sc) in
+  let common := filter (fun v => memZ v C) S in
+  match obs with
+  | VL [VI ok; VI ver; VI csid; VI ann; VI ssid; VI killed] =>
+      match S with [] => true | _ =>   (* a plugin that serves no plugin set at all is outside the property's quantifier *)
+      match maxZ common with
+      | Some m =>
+          Z.eqb ok 1 && Z.eqb ver m && Z.eqb ann m &&
+          Z.eqb csid (match mget (client_map cc) m with Some x => ps_id x | None => (-9)%Z end) &&
+          Z.eqb ssid (match mget (server_map sc) m with Some x => ps_id x | None => (-9)%Z end)
+      | None =>
+          Z.eqb ok 0 && Z.eqb killed 1 &&
+          match minZ S with Some lo => Z.eqb ann lo | None => true end
+      end end
+  | _ => false
+  end.
+
+Definition check_negotiate2 (inp obs : V) : verdict :=
+  match inp with
+  | VL [cc; sc] =>
+      match dclient cc, dserve sc with
+      | Some cc, Some sc =>
+          let m := both_sides cc sc in
+          {| v_decoded := true; v_agree := V_eqb m obs; v_oracle_impl := oracle_both cc sc obs;
+             v_oracle_model := oracle_both cc sc m; v_model_obs := m;
+             v_branch := match m with VL (o :: _) => o | _ => VL [] end |}
+      | _, _ => bad_case
+      end
+  | _ => bad_case
+  end.
